@@ -1118,6 +1118,8 @@ RETCODE adfReadEntryBlock ( struct AdfVolume * const   vol,
          secType == ST_LSOFT  )
     {
         swapEndian((uint8_t*)ent, SWBL_LINK);
+    } else if ( secType == ST_ROOT ) {
+        swapEndian((uint8_t*)ent, SWBL_ROOT);
     } else {
         swapEndian((uint8_t*)ent, SWBL_ENTRY);
     }
@@ -1157,7 +1159,16 @@ RETCODE adfWriteEntryBlock ( struct AdfVolume * const         vol,
     memcpy(buf, ent, sizeof(struct bEntryBlock));
 
 #ifdef LITT_ENDIAN
-    swapEndian(buf, SWBL_ENTRY);
+    if ( ent->secType == ST_LFILE ||
+         ent->secType == ST_LDIR ||
+         ent->secType == ST_LSOFT )
+    {
+        swapEndian(buf, SWBL_LINK);
+    } else if ( ent->secType == ST_ROOT ) {
+        swapEndian(buf, SWBL_ROOT);
+    } else {
+        swapEndian(buf, SWBL_ENTRY);
+    }
 #endif
     newSum = adfNormalSum(buf,20,sizeof(struct bEntryBlock));
     swLong(buf+20, newSum);
